@@ -32,14 +32,14 @@ def describe(tier):
         "rule": "layer A: encoded length l in 1..4 x largest = k*2^(8l)+d-1 (k from a list reaching 2^62, d within +-3 of 0, "
                 "half window, window) x truncated value (all values for l<=2; +-3 around 0, half window, window-1 and "
                 "(expected+-half window) mod window for l=3,4) x each of 7 (packet type, direction) slots, the other "
-                "slots holding different values; layer B: BFS over packet histories with state = the six largest-"
-                "packet-number slots; layer N: for 4 suites x 9 base values up to 2^62 x both directions, real 1-RTT packets protected by "
+                "slots holding different values; layer B: BFS over packet histories with state = the largest-"
+                "packet-number slots (which slots share a space is taken from RFC 9000 12.3, not from TLExport's tables: a 0-RTT packet moves the 1-RTT slot of its direction and vice versa); layer N: for 4 suites x 9 base values up to 2^62 x both directions, real 1-RTT packets protected by "
                 "the peer model at packet numbers base+1, base+2 are fed to the real session and must be opened (the reconstructed "
                 "number is the AEAD nonce). non-trivial: the reference decode differs from the plain truncated value "
                 "(window arithmetic mattered); distinct = distinct (l, largest, truncated)",
         "exhaustive": True,
         "bounds": {"lengths": [1, 2, 3, 4], "k_values": {l: [str(k) for k in _ks(l, tier)] for l in (1, 2, 3, 4)},
-                   "bfs": "fixpoint over 3 slots x 12 packet numbers (quick) / 4 slots x 14 (thorough)"},
+                   "bfs": "fixpoint over 4 slots x 12 packet numbers (quick) / 4 slots x 14 (thorough)"},
         "min_nontrivial": 1000,
         "assumptions": [
             "reference: RFC 9000 Appendix A.3 pseudo-code transcribed in integer arithmetic (mc/model/rfc9000.py)",
@@ -92,6 +92,15 @@ def slot_key(slot):
     from tlexport.quic.quic_packet import QuicPacketType
     ptype, isserver = SLOTS[slot]
     return isserver, PACKET_TYPE_MAP[getattr(QuicPacketType, ptype)]
+
+
+# RFC 9000 12.3: three packet-number spaces - Initial, Handshake, Application data (0-RTT and 1-RTT share it) - per direction.
+# Which slots share a space is decided here, not read from TLExport's own tables.
+RFC_SPACE = {"INITIAL": "initial", "HANDSHAKE": "handshake", "RTT_1": "application", "RTT_O": "application"}
+
+
+def same_space(a, b):
+    return SLOTS[a][1] == SLOTS[b][1] and RFC_SPACE[SLOTS[a][0]] == RFC_SPACE[SLOTS[b][0]]
 
 
 def get_slots(sess):
@@ -210,9 +219,11 @@ def run_a(case):
             truncs = sorted(set((c + e) % win for c in centres for e in range(-3, 4)))
         # other slots hold distinctive values so that reading the wrong slot shows
         for s2 in range(len(SLOTS)):
-            if slot_key(s2) != slot_key(slot):
+            if not same_space(s2, slot):
                 set_slot(sess, s2, (largest ^ 0x155) + 7 * s2 + 1000)
-        set_slot(sess, slot, largest)
+        for s2 in range(len(SLOTS)):
+            if same_space(s2, slot):
+                set_slot(sess, s2, largest)
         before = get_slots(sess)
         isserver, key = slot_key(slot)
         dct = sess.packet_number_server if isserver else sess.packet_number_client
@@ -262,7 +273,7 @@ def run_b(case):
     """BFS over histories.  state = tuple of slot largest values (only the slots in play)."""
     tier = case["tier"]
     if tier == "quick":
-        slots = [4, 5, 2]                    # 1-RTT client, 1-RTT server, Handshake client
+        slots = [4, 5, 2, 6]                 # 1-RTT client, 1-RTT server, Handshake client, 0-RTT client (shares the 1-RTT client space)
         pns = [0, 1, 2, 127, 128, 129, 255, 256, 300, 32768, 65535, 65536]
     else:
         slots = [4, 5, 2, 6]                 # + 0-RTT client (shares the 1-RTT client space)
@@ -298,7 +309,7 @@ def run_b(case):
                         new = tuple(get_slot(sess, s) for s in slots)
                         want_state = list(state)
                         for sj, s2 in enumerate(slots):
-                            if slot_key(s2) == slot_key(slot):
+                            if same_space(s2, slot):
                                 want_state[sj] = max(state[sj], pn)
                         if got != pn or new != tuple(want_state):
                             if len(fails) < 30:
